@@ -3,6 +3,7 @@ import Hgxv.Proofs.C02Total
 import Hgxv.Proofs.C02Found
 import Hgxv.Proofs.C02X
 import Hgxv.Proofs.C02XSub
+import Hgxv.Proofs.C02Y
 /-! # C02 - property theorems (DirectedHypergraph faithfully stores (source set, target set) hyperedges)
 
 Model: `Hgxv/Model/C02.lean` (concrete `Store` mirroring `core/directed_hypergraph.py` after the `fix:` commits
@@ -723,3 +724,208 @@ example :
   rcases ho with rfl | rfl | rfl | rfl | rfl
   · exact RawWF_of_ok _ (by decide)
   all_goals trivial
+
+/-! ## Second extension round: the constructor as one call, raw setters / `populate_from_dict`, `get_mapping` -/
+
+/-- **The constructor as ONE modelled call.**  For all constructor arguments whose hyperedges satisfy the property's
+quantifier (`RawWF`: duplicate-free, disjoint, non-empty sides; nothing is assumed about flag, weights, any metadata):
+(1) the constructor of the tables is accepted iff the constructor of the abstract object (set of nodes + map) is, and the
+abstraction of what it builds - also of the half-built object of a refused call - is what the abstract constructor builds;
+(2) it is accepted iff every one of the PUBLIC calls it stands for (`ctorCalls`: `add_node(n, metadata)` per entry of
+`node_metadata`, then one `add_edges(edge_list, weights, edge_metadata)`) is accepted on the empty object carrying the
+constructor's hypergraph metadata, and likewise on the abstract side; (3) an accepted call IS that run of public calls,
+all of them well-formed; (4) the object is `Reachable`, and for every well-formed continuation the invariant holds and
+the abstraction is the abstract run from the abstract constructor's object - every theorem of this file applies to
+constructed objects and their futures. -/
+theorem C02_constructor (w : Bool) (hm : Option Meta) (nm : Option (List (Node × Meta))) (es : Option (List RawEdge))
+    (ws : Option (List Int)) (mds : Option (List Meta)) (hes : ∀ e ∈ es.getD [], RawWF e) :
+    ((ctor w hm nm es ws mds).2 = (Spec.ctor w hm nm es ws mds).2 ∧
+      abs (ctor w hm nm es ws mds).1 = (Spec.ctor w hm nm es ws mds).1) ∧
+    ((ctor w hm nm es ws mds).2 = .ok ↔ (runOk (ctorInit w hm) (ctorCalls nm es ws mds)).isSome = true) ∧
+    ((Spec.ctor w hm nm es ws mds).2 = .ok ↔
+      (Spec.runOk (Spec.ctorInit w hm) (ctorCalls nm es ws mds)).isSome = true) ∧
+    (∀ o ∈ ctorCalls nm es ws mds, o.WF) ∧
+    ((ctor w hm nm es ws mds).2 = .ok →
+      runOk (ctorInit w hm) (ctorCalls nm es ws mds) = some (ctor w hm nm es ws mds).1 ∧
+      (ctor w hm nm es ws mds).1 = run (ctorInit w hm) (ctorCalls nm es ws mds) ∧
+      Reachable (ctor w hm nm es ws mds).1 ∧
+      ∀ ops : List Op, (∀ o ∈ ops, o.WF) →
+        Inv (run (ctor w hm nm es ws mds).1 ops) ∧
+        abs (run (ctor w hm nm es ws mds).1 ops) = Spec.run (Spec.ctor w hm nm es ws mds).1 ops) := by
+  obtain ⟨a1, a2, a3⟩ := abs_ctor w hm nm es ws mds hes
+  obtain ⟨c1, c2⟩ := ctor_as_calls w hm nm es ws mds
+  have hwf := ctorCalls_WF nm es ws mds hes
+  have hinv := ctor_inv w hm nm es ws mds hes
+  have r := runOk_abs (ctorInit w hm) (ctorCalls nm es ws mds) hwf (inv_init _ _) (ord_init _ _)
+  refine ⟨⟨a2, a1⟩, c1, ?_, hwf, ?_⟩
+  · rw [← a2, c1]
+    have : abs (ctorInit w hm) = Spec.ctorInit w hm := rfl
+    rw [← this, ← r.1]
+    cases runOk (ctorInit w hm) (ctorCalls nm es ws mds) <;> rfl
+  · intro hok
+    refine ⟨(c2 hok).1, (c2 hok).2, ?_, ?_⟩
+    · refine ⟨[Cmd.new 0 w hm nm es ws mds], 0, ?_, ?_⟩
+      · intro c hc
+        simp only [List.mem_cons, List.mem_nil_iff, or_false] at hc
+        subst hc; exact hes
+      · cases hr : ctor w hm nm es ws mds with
+        | mk s o =>
+          rw [hr] at hok
+          simp only at hok
+          subst hok
+          simp [runCmds, step, hr, AL.set, get?]
+    · intro ops hops
+      have q := abs_run (ctor w hm nm es ws mds).1 ops hops hinv a3
+      exact ⟨q.2.2.1, by rw [q.1, a1]⟩
+
+/-- non-vacuity: node metadata, hypergraph metadata with a free key, two hyperedges (permuted listing, a bare-node target),
+weights on an UNWEIGHTED object (promotion inside the constructor), edge metadata: accepted, equal to the run of its
+three public calls; continued by a removal -/
+example :
+    let c := ctor false (some [(5, 6)]) (some [(7, [(2, 3)])])
+      (some [⟨.nodes [3, 1], .scalar 2⟩, ⟨.nodes [2], .nodes [4, 5]⟩]) (some [8, 12]) (some [[(1, 1)], []])
+    let calls := ctorCalls (some [(7, [(2, 3)])])
+      (some [⟨.nodes [3, 1], .scalar 2⟩, ⟨.nodes [2], .nodes [4, 5]⟩]) (some [8, 12]) (some [[(1, 1)], []])
+    c.2 = .ok ∧ calls.length = 2 ∧ c.1 = run (ctorInit false (some [(5, 6)])) calls ∧ c.1.weighted = true ∧
+    nodes c.1 = [7, 1, 3, 2, 4, 5] ∧ getWeight c.1 (.ofLists [1, 3] [2]) = some 8 ∧
+    nodeMeta c.1 7 = some [(2, 3)] ∧ edges (run c.1 [.removeNode 2 false]) .all false = some [] := by decide
+
+/-- **Rejected constructor calls, characterised by the arguments alone** (no hypothesis at all).  The constructor raises
+iff an `edge_list` is given and either the number of `weights` differs from the number of hyperedges or a non-empty
+`edge_metadata` list is shorter than `edge_list`.  In particular the constructor's own `ValueError` (weighted, weights
+given, lengths differ) is subsumed: with `weighted=False` the same arguments are refused by `add_edges`; the flag, the
+hypergraph / node metadata and the hyperedges themselves never cause a rejection, and without `edge_list` every other
+argument is ignored. -/
+theorem C02_constructor_rejects (w : Bool) (hm : Option Meta) (nm : Option (List (Node × Meta)))
+    (es : Option (List RawEdge)) (ws : Option (List Int)) (mds : Option (List Meta)) :
+    ((ctor w hm nm es ws mds).2 = .rej ↔ ctorRejArgs es ws mds = true) ∧
+    (ctorOwnRej w es ws = true → ctorRejArgs es ws mds = true) ∧
+    (es = none → (ctor w hm nm es ws mds).2 = .ok) := by
+  have h := ctor_rej_iff w hm nm es ws mds
+  refine ⟨h, ?_, ?_⟩
+  · intro ho
+    cases es with
+    | none => simp [ctorOwnRej] at ho
+    | some el =>
+      cases ws with
+      | none => simp [ctorOwnRej] at ho
+      | some l =>
+        simp [ctorOwnRej] at ho
+        simp [ctorRejArgs, ho.2]
+  · intro he; subst he; rfl
+
+/-- non-vacuity: three refused forms (too few weights on an unweighted object - the constructor's own test is skipped,
+`add_edges` refuses; too many weights on a weighted one; `edge_metadata` too short) and two accepted degenerate ones
+(no `edge_list`: weights ignored; empty `edge_metadata` list counts as not given) -/
+example :
+    (ctor false none none (some [⟨.nodes [1], .nodes [2]⟩, ⟨.nodes [2], .nodes [3]⟩]) (some [4]) none).2 = .rej ∧
+    (ctor true none none (some [⟨.nodes [1], .nodes [2]⟩]) (some [4, 8]) none).2 = .rej ∧
+    (ctor false none none (some [⟨.nodes [1], .nodes [2]⟩, ⟨.nodes [2], .nodes [3]⟩]) none (some [[]])).2 = .rej ∧
+    (ctor true none none none (some [4, 8]) (some [[]])).2 = .ok ∧
+    (ctor false none none (some [⟨.nodes [1], .nodes [2]⟩]) none (some [])).2 = .ok := by decide
+
+/-- **Raw setters and `populate_from_dict ∘ expose_data_structures = id`** (EVERY store, reachable or not; every table).
+`populate_from_dict(expose_data_structures())` gives back the same ten tables whatever the receiver was, and
+`expose_data_structures()` after `populate_from_dict(d)` returns `d`: the two are mutually inverse.  `get_edge_list`
+after `set_edge_list(x)` returns `x` and no other table moves; the same for `set_adj_dict(x, 'source' | 'target')` (the
+OTHER adjacency table does not move); setter ∘ getter = id. -/
+theorem C02_populate_expose (s : Store) (t : Tables) (el : List (Key × Nat)) (adj : Adj) (b : Bool) :
+    populate (expose s) = s ∧ expose (populate t) = t ∧
+    getEdgeList (setEdgeList s el) = el ∧ { setEdgeList s el with edgeList := s.edgeList } = s ∧
+    setEdgeList s (getEdgeList s) = s ∧
+    getAdjDict (setAdjDict s b adj) b = adj ∧ getAdjDict (setAdjDict s b adj) (!b) = getAdjDict s (!b) ∧
+    setAdjDict s b (getAdjDict s b) = s ∧ (setAdjDict s b adj).edgeList = s.edgeList ∧
+    abs (setAdjDict s false adj) = abs s := by
+  refine ⟨populate_expose s, expose_populate t, rfl, by cases s; rfl, by cases s; rfl, ?_, ?_, ?_, ?_, ?_⟩
+  · cases b <;> rfl
+  · cases b <;> rfl
+  · cases s; cases b <;> rfl
+  · cases b <;> rfl
+  · rfl
+
+/-- **Echo histories.**  A history that mixes public calls (all `Op`s and `set_incidence_metadata`) with raw calls
+(`set_edge_list`, `set_adj_dict`, `populate_from_dict`) each of which hands back what the matching getter returns at
+that moment (`echoes`) ends in the state of its public calls alone - a `populate_from_dict(expose_data_structures())`
+additionally EMPTIES the incidence table, because `expose_data_structures()` does not hand that table out (`forget`) -;
+its ten tables are those of the run of its base calls, so (calls satisfying the quantifier) the invariant holds and the
+abstraction is the abstract run: every theorem of this file applies to such histories. -/
+theorem C02_raw_echo_history (w : Bool) (ops : List RawOp) (hops : ∀ o ∈ ops, o.WF)
+    (he : echoes { base := { weighted := w } } ops = true) :
+    rawRun { base := { weighted := w } } ops = pubRun { base := { weighted := w } } (pubOps ops) ∧
+    (rawRun { base := { weighted := w } } ops).base = run { weighted := w } (baseOps ops) ∧
+    Inv (rawRun { base := { weighted := w } } ops).base ∧
+    abs (rawRun { base := { weighted := w } } ops).base = Spec.run { weighted := w } (baseOps ops) := by
+  have h1 := rawRun_echo _ ops he
+  have h2 := rawRun_base _ ops he
+  have hw := baseOps_WF ops hops
+  have q := abs_run { weighted := w } (baseOps ops) hw (inv_init w []) (ord_init w [])
+  refine ⟨h1, h2, ?_, ?_⟩
+  · rw [h2]; exact q.2.2.1
+  · rw [h2]; exact q.1
+
+/-- non-vacuity: all raw calls as echoes inside a history with an incidence entry; the populate forgets the entry, the
+hyperedge and its weight stay; a NON-echo `set_adj_dict` breaks the tie (degree 0 on the tables, the hyperedge still listed) -/
+example :
+    let x0 : Full := { base := { weighted := true } }
+    let s1 := (addEdge x0.base (.ofLists [2, 1] [3]) (some 8) none).1
+    let ops : List RawOp := [.pub (.base (.addEdge (.ofLists [2, 1] [3]) (some 8) none)),
+      .pub (.setInc (.ofLists [1, 2] [3]) 2 [(2, 3)]), .setEL s1.edgeList, .setAdj true s1.adjS, .setAdj false s1.adjT,
+      .pop (expose s1), .pub (.base (.addNode 9 none))]
+    echoes x0 ops = true ∧ (rawRun x0 ops).inc = [] ∧ (rawRun x0 (ops.take 5)).inc ≠ [] ∧
+    getWeight (rawRun x0 ops).base (.ofLists [1, 2] [3]) = some 8 ∧ nodes (rawRun x0 ops).base = [1, 2, 3, 9] ∧
+    echoes x0 (ops.take 3 ++ [.setAdj true []]) = false ∧
+    degree (rawRun x0 (ops.take 3 ++ [.setAdj true []])).base 1 .all = none ∧
+    edges (rawRun x0 (ops.take 3 ++ [.setAdj true []])).base .all false = some [([1, 2], [3])] := by decide
+
+/-- **`get_mapping()` is a bijection nodes ↔ 0..n-1 in label order** (every reachable object).  `classes_` lists exactly
+the nodes, each once, strictly increasing, as many as `num_nodes()`; it depends on the abstract object only; a label is
+encoded iff it is a node (otherwise `transform` raises); the code of a node is its position in `classes_`
+(`transform` / `inverse_transform` are mutually inverse), so a smaller label has a smaller code. -/
+theorem C02_mapping (s : Store) (hr : Reachable s) :
+    (mapping s).Pairwise (· < ·) ∧ (∀ n, n ∈ mapping s ↔ checkNode s n = true) ∧
+    (mapping s).length = numNodes s ∧ mapping s = Spec.mapping (abs s) ∧
+    (∀ n i, indexOf? s n = some i ↔ labelOf? s i = some n) ∧
+    (∀ n, indexOf? s n = none ↔ checkNode s n = false) ∧
+    (∀ n m i j, indexOf? s n = some i → indexOf? s m = some j → (n < m ↔ i < j)) := by
+  have h := C02_inv s hr
+  obtain ⟨m1, m2, m3⟩ := mapping_props s h
+  have nd : (mapping s).Nodup := m1.imp (fun h => Nat.ne_of_lt h)
+  have hiff : ∀ n i, indexOf? s n = some i ↔ labelOf? s i = some n := by
+    intro n i
+    unfold indexOf? labelOf?
+    constructor
+    · intro hi
+      obtain ⟨k, hk, hg⟩ := indexFrom_some n _ 0 i hi
+      have : i = k := by omega
+      subst this; exact hg
+    · intro hg
+      have := indexFrom_of_get n _ nd i 0 hg
+      simpa using this
+  refine ⟨m1, m2, m3, by unfold mapping Spec.mapping; rw [q_nodes], hiff, ?_, ?_⟩
+  · intro n
+    unfold indexOf?
+    rw [indexFrom_none, m2]
+    cases checkNode s n <;> simp
+  · intro n m i j hn hm
+    have gn := (hiff n i).mp hn
+    have gm := (hiff m j).mp hm
+    unfold labelOf? at gn gm
+    obtain ⟨hi, ei⟩ := List.getElem?_eq_some_iff.mp gn
+    obtain ⟨hj, ej⟩ := List.getElem?_eq_some_iff.mp gm
+    have pw := List.pairwise_iff_getElem.mp m1
+    constructor
+    · intro hlt
+      rcases Nat.lt_trichotomy i j with h1 | h1 | h1
+      · exact h1
+      · subst h1
+        have e : n = m := ei.symm.trans ej
+        exact absurd hlt (e ▸ Nat.lt_irrefl n)
+      · have h2 : (mapping s)[j] < (mapping s)[i] := pw j i hj hi h1
+        rw [ei, ej] at h2; exact absurd hlt (Nat.lt_asymm h2)
+    · intro hlt
+      have h2 : (mapping s)[i] < (mapping s)[j] := pw i j hi hj hlt
+      rw [ei, ej] at h2; exact h2
+
+/-- non-vacuity: the last object of the example history has nodes in non-sorted insertion order; the mapping sorts them -/
+example : nodes exampleFinal ≠ mapping exampleFinal ∧ (mapping exampleFinal).length = numNodes exampleFinal ∧
+    indexOf? exampleFinal ((mapping exampleFinal).getD 1 0) = some 1 ∧ indexOf? exampleFinal 1000 = none := by decide
